@@ -979,7 +979,7 @@ def write_crate(tag, text, features=('serde', 'arbitrary'), deps=('serde', 'arbi
 
 def run_kani(crate, harness_names=None, jobs=14, extra_flags=(), timeout=3000):
     env = dict(pipeline.ENV)
-    env['CARGO_TARGET_DIR'] = os.path.join(pipeline.VERIF, 'target', 'kani')
+    env['CARGO_TARGET_DIR'] = os.path.join(pipeline.TARGET, 'kani')
     cmd = ['cargo', 'kani', '-j', str(jobs), '--output-format', 'terse'] + KANI_FLAGS + list(extra_flags)
     if harness_names:
         for h in harness_names:
